@@ -613,12 +613,12 @@ package wire
 //@   ensures [own-array] result.1 == nil ==> fresh(arr(result.0))
 //@   modifies reader.Msg, #maxalloc, #nalloc
 //@   loop 0
-//@     invariant [range] 0 <= i && i <= length && len(columns) == length && length == mbe16(arr(old(reader.Msg)), off(old(reader.Msg)))
+//@     invariant [range] 0 <= $n && $n <= len(columns) && len(columns) == mbe16(arr(old(reader.Msg)), off(old(reader.Msg)))
 //@     invariant [own-array] arr(columns) > old(#alloc)
-//@     invariant [position] arr(reader.Msg) == arr(old(reader.Msg)) && off(reader.Msg) == off(old(reader.Msg)) + 2 + 2 * i && end(reader.Msg) == end(old(reader.Msg))
-//@     invariant [codes] forall j :: (0 <= j && j < i) ==> columns[j] == wrap16(mbe16(arr(old(reader.Msg)), off(old(reader.Msg)) + 2 + 2 * j))
+//@     invariant [position] arr(reader.Msg) == arr(old(reader.Msg)) && off(reader.Msg) == off(old(reader.Msg)) + 2 + 2 * $n && end(reader.Msg) == end(old(reader.Msg))
+//@     invariant [codes] forall j :: (0 <= j && j < $n) ==> columns[j] == wrap16(mbe16(arr(old(reader.Msg)), off(old(reader.Msg)) + 2 + 2 * j))
 //@     invariant [alloc-bound] #maxalloc <= max(old(#maxalloc), 2 * 65535)
-//@     decreases length - i
+//@     decreases len(columns) - $n
 
 //@ func (*Session).readParameters
 //@   props C08 C03 C18 C04
@@ -633,24 +633,24 @@ package wire
 //@   ensures [own-array] result.1 == nil ==> fresh(arr(result.0))
 //@   modifies reader.Msg, #maxalloc, #nalloc
 //@   loop 0
-//@     invariant [range] 0 <= i && i <= length && len(formats) == length && length == bindNF(arr(old(reader.Msg)), off(old(reader.Msg)))
+//@     invariant [range] 0 <= $n && $n <= len(formats) && len(formats) == bindNF(arr(old(reader.Msg)), off(old(reader.Msg)))
 //@     invariant [own-array] arr(formats) > old(#alloc)
-//@     invariant [position] arr(reader.Msg) == arr(old(reader.Msg)) && off(reader.Msg) == off(old(reader.Msg)) + 2 + 2 * i && end(reader.Msg) == end(old(reader.Msg)) && reader.Msg != nil
-//@     invariant [codes] forall j :: (0 <= j && j < i) ==> formats[j] == bindF(arr(old(reader.Msg)), off(old(reader.Msg)), j)
-//@     invariant [default] defaultFormat == ((length == 1 && i >= 1) ? bindF(arr(old(reader.Msg)), off(old(reader.Msg)), 0) : 0)
+//@     invariant [position] arr(reader.Msg) == arr(old(reader.Msg)) && off(reader.Msg) == off(old(reader.Msg)) + 2 + 2 * $n && end(reader.Msg) == end(old(reader.Msg)) && reader.Msg != nil
+//@     invariant [codes] forall j :: (0 <= j && j < $n) ==> formats[j] == bindF(arr(old(reader.Msg)), off(old(reader.Msg)), j)
+//@     invariant [default] defaultFormat == ((len(formats) == 1 && $n >= 1) ? bindF(arr(old(reader.Msg)), off(old(reader.Msg)), 0) : 0)
 //@     invariant [alloc-bound] #maxalloc <= max(old(#maxalloc), 2 * 65535)
-//@     decreases length - i
+//@     decreases len(formats) - $n
 //@   loop 1
-//@     invariant [range] 0 <= i && i <= length && len(parameters) == length && length == bindNP(arr(old(reader.Msg)), off(old(reader.Msg)))
+//@     invariant [range] 0 <= $n && $n <= len(parameters) && len(parameters) == bindNP(arr(old(reader.Msg)), off(old(reader.Msg)))
 //@     invariant [own-array] arr(parameters) > old(#alloc) && arr(formats) > old(#alloc) && arr(formats) != arr(parameters)
 //@     invariant [formats] len(formats) == bindNF(arr(old(reader.Msg)), off(old(reader.Msg))) && (forall j :: (0 <= j && j < len(formats)) ==> formats[j] == bindF(arr(old(reader.Msg)), off(old(reader.Msg)), j))
 //@     invariant [default] defaultFormat == (len(formats) == 1 ? bindF(arr(old(reader.Msg)), off(old(reader.Msg)), 0) : 0)
-//@     invariant [position] arr(reader.Msg) == arr(old(reader.Msg)) && off(reader.Msg) == bindOffP(arr(old(reader.Msg)), off(old(reader.Msg)), i) && end(reader.Msg) == end(old(reader.Msg)) && reader.Msg != nil
-//@     invariant [values] forall j :: (0 <= j && j < i) ==> (mbe32(arr(old(reader.Msg)), bindOffP(arr(old(reader.Msg)), off(old(reader.Msg)), j)) == 4294967295 ? parameters[j].value == nil : (arr(parameters[j].value) == arr(old(reader.Msg)) && off(parameters[j].value) == bindOffP(arr(old(reader.Msg)), off(old(reader.Msg)), j) + 4 && len(parameters[j].value) == mbe32(arr(old(reader.Msg)), bindOffP(arr(old(reader.Msg)), off(old(reader.Msg)), j))))
-//@     invariant [param-formats] forall j :: (0 <= j && j < i) ==> parameters[j].format == bindPFmt(arr(old(reader.Msg)), off(old(reader.Msg)), j)
-//@     invariant [decoder] forall j :: (0 <= j && j < i) ==> parameters[j].types == TypeMapOf(ctx)
+//@     invariant [position] arr(reader.Msg) == arr(old(reader.Msg)) && off(reader.Msg) == bindOffP(arr(old(reader.Msg)), off(old(reader.Msg)), $n) && end(reader.Msg) == end(old(reader.Msg)) && reader.Msg != nil
+//@     invariant [values] forall j :: (0 <= j && j < $n) ==> (mbe32(arr(old(reader.Msg)), bindOffP(arr(old(reader.Msg)), off(old(reader.Msg)), j)) == 4294967295 ? parameters[j].value == nil : (arr(parameters[j].value) == arr(old(reader.Msg)) && off(parameters[j].value) == bindOffP(arr(old(reader.Msg)), off(old(reader.Msg)), j) + 4 && len(parameters[j].value) == mbe32(arr(old(reader.Msg)), bindOffP(arr(old(reader.Msg)), off(old(reader.Msg)), j))))
+//@     invariant [param-formats] forall j :: (0 <= j && j < $n) ==> parameters[j].format == bindPFmt(arr(old(reader.Msg)), off(old(reader.Msg)), j)
+//@     invariant [decoder] forall j :: (0 <= j && j < $n) ==> parameters[j].types == TypeMapOf(ctx)
 //@     invariant [alloc-bound] #maxalloc <= max(old(#maxalloc), 48 * 65535)
-//@     decreases length - i
+//@     decreases len(parameters) - $n
 
 //@ func handleMessageSizeExceeded
 //@   props C10 C06 C04
@@ -724,8 +724,8 @@ package wire
 //@   ensures [nZ-monotone] #nZ >= old(#nZ)
 //@   modifies ExtHandlerEffects(srv, reader, writer, ctx)
 //@   loop 0
-//@     invariant [range] 0 <= i && i <= parameters
-//@     decreases parameters - i
+//@     invariant [range] 0 <= $n && $n <= parameters
+//@     decreases parameters - $n
 
 //@ func (*Session).handleDescribe
 //@   props C06 C07 C08 C02 C04
